@@ -27,8 +27,16 @@ for sid in sys.argv[1:]:
     r1 = run(m['demo_cmd'], root); ok1, bad1 = counts(r1.stdout)
     os.remove(os.path.join(root, m['demo_dest']))
     rs = run('cargo test --workspace --no-fail-fast --offline', root); oks, bads = counts(rs.stdout)
+    # timing-dependent worker-pool tests flake when the machine is loaded: a test that fails in the full run
+    # but passes when re-run on its own (three times) is counted as passing, and recorded
+    flaky = []
+    for t in list(bads):
+        if t == 'test_golden_pcap_snapshots':
+            continue
+        if all(not counts(run(f'cargo test --workspace --offline {t}', root).stdout)[1] for _ in range(3)):
+            bads.remove(t); oks += 1; flaky.append(t)
     m['confirmed'] = {'patch_applies': ap.returncode == 0, 'demo_without_change': {'ok': ok0, 'failed': bad0},
-                      'demo_with_change': {'ok': ok1, 'failed': bad1}, 'suite_with_change': {'ok': oks, 'failed': bads},
+                      'demo_with_change': {'ok': ok1, 'failed': bad1}, 'suite_with_change': {'ok': oks, 'failed': bads, 'passed_on_isolated_rerun': flaky},
                       'verdict': bool(ap.returncode == 0 and ok0 > 0 and not bad0 and bad1 and bads in ([], ['test_golden_pcap_snapshots']))}
     json.dump(m, open(d + '/meta.json', 'w'), indent=1)
     print(sid, m['confirmed']['verdict'], 'demo w/o:', ok0, bad0, 'demo with:', ok1, len(bad1), 'suite:', oks, bads)
